@@ -221,6 +221,14 @@ func main() {
 		inconclusive = true
 	}
 
+	if total.Evaluations == 0 {
+		inconclusive = true
+		fmt.Printf("INCONCLUSIVE: no case was evaluated (every generated subject was rejected?)\n")
+		for _, n := range total.Notes {
+			fmt.Printf("  note: %s\n", tail(n, 400))
+		}
+	}
+
 	// Verdict.
 	fs, err := vrep.LoadFindings(findingsPath)
 	if err != nil {
